@@ -151,7 +151,7 @@ def check_diff(res):
             bad = (np.abs(a - b) > tol) & ~np.isnan(a) & ~np.isnan(b)
             if key.startswith("mr"):
                 # mean mass of a bin holding (almost) nothing is meaningless
-                N_m = np.array(m["Nr" + key[2:]]); bad &= (N_m > 1.0)
+                N_m = np.array(m["Nr" + key[2:]]); N_s = np.array(s["Nr" + key[2:]]); bad &= (N_m > 1.0) & (N_s > 1.0)
             if key in ("Ms", "alpha"):
                 # a star bin left with the 0.1-object residue: its mass/slope are not meaningful either
                 bad &= (np.array(m["Ns"]) > 10.0) & (np.array(s["Ns"]) > 10.0)
@@ -161,10 +161,13 @@ def check_diff(res):
                 return {"clause": "the row for age T is the same whether T is requested alone or within any schedule", "row": i, "age": cfg["tout"][i],
                         "attr": key, "bin": j, "multi": repr(float(a[j])), "single": repr(float(b[j])), "tight": tight}
         if not tight:
+            # class totals: numbers where nothing is ejected; with ejection or kicks the number removed depends on which bins hold the
+            # mass (heaviest first), so only the total mass is independent of how the default-tolerance run distributed the objects
+            ejecting = res["kind"] in ("eject", "kicks", "fbh") or cfg["kw"].get("BH_ret_dyn", 1.0) < 1.0 or cfg["kw"].get("natal_kicks")
             for key in m:
-                if key.startswith("Nr") and len(m[key]):
+                if len(m[key]) and (key.startswith("Mr") if (ejecting and key.endswith("BH")) else key.startswith("Nr")):
                     ta, tb = float(np.nansum(m[key])), float(np.nansum(s[key]))
-                    if abs(ta - tb) > 5e-3 * max(abs(tb), 1.0) + 0.5 * len(m[key]):
+                    if abs(ta - tb) > 5e-3 * max(abs(tb), 1.0) + (0.5 if key[0] == "N" else 25.0) * len(m[key]):
                         return {"clause": "the row for age T is the same whether T is requested alone or within any schedule (class total)",
                                 "row": i, "age": cfg["tout"][i], "attr": key, "multi": repr(ta), "single": repr(tb), "tight": tight}
         if cfg["tout"][i] == 0.0:
